@@ -364,7 +364,10 @@ def stub_match_token(stop, state, kind, rest):
     sc.n = 1
     p = Parser(b)
     p.stop_at_first_error = stop
-    ctx = ParserContext(sc, m, deque(), [])
+    try:
+        ctx = ParserContext(token_scanner=sc, token_matcher=m, token_queue=deque(), errors=[])
+    except TypeError:
+        ctx = ParserContext(sc, m, deque(), [])
     tok = StubToken(kind, 1)
     try:
         s = p.match_token(state, tok, ctx)
